@@ -220,7 +220,7 @@ impl Prop for AddSub {
                 ((r.timestamp() as i128 + tl::EPOCH_1970_S as i128) * tl::NS, None)
             })
         } else {
-            let d0 = match catch(|| mk_dt_off(ia, c.off)) {
+            let d0 = match catch(|| mk_dt_off_any(ia, c.off)) {
                 Ok(d) => d,
                 Err(p) => return fail("c04.harness_build", "receiver builds", p.short()),
             };
